@@ -100,6 +100,8 @@ CREATE_EMSG_BOXES = Contract(
                              '0, length(retval))'),
             ('skipped', 'forall(lambda k: not sched(k), 0, lo)'),
             ('none_before', 'length(retval) > 0 or event_id == 0 or presentation_time - self.interval < a'),
+            # the event emitted last lies inside the segment (makes the "skip" path obviously the empty-list case)
+            ('after_first', 'length(retval) == 0 or presentation_time - self.interval >= a'),
         ],
         extra_modifies=['seg_start', 'seg_end'],     # abstracted to a, b by the `bounds` invariant
         variant=['b - presentation_time'])},
